@@ -9,7 +9,8 @@ COMMON_NOTE = ("Trusted: Lean 4.33 kernel (axioms audited per theorem: subset of
                "the correspondence harness (harness/corr) which runs model and real code on the same inputs; harness canonicalisation "
                "and lean/SV/Wire.lean. ")
 
-CLAIMS = {p.stem: json.load(open(p)) for p in sorted((ROOT / "claims").glob("C*.json"))}
+READY = set((ROOT / "claims" / "READY").read_text().split()) if (ROOT / "claims" / "READY").exists() else set()
+CLAIMS = {p.stem: json.load(open(p)) for p in sorted((ROOT / "claims").glob("C*.json")) if p.stem in READY}
 HOOK_COMMITS = json.load(open(ROOT / "claims" / "hook_commits.json")) if (ROOT / "claims" / "hook_commits.json").exists() else []
 
 props = [json.loads(l)["id"] for l in open(ROOT / "properties.jsonl")]
@@ -17,8 +18,9 @@ checks, na = [], []
 for pid in props:
     c = CLAIMS.get(pid)
     if c is None:
-        na.append({"property_id": pid, "reason": "not claimed yet: the Lean model and correspondence check for this property "
-                                                 "are not built at this commit (planned in DESIGN.md section 4)"})
+        na.append({"property_id": pid, "reason": "not claimed at this commit: the Lean model and correspondence check for this "
+                                                 "property are still being built/reviewed (plan: DESIGN.md section 4); it is "
+                                                 "applicable to the technique and will be claimed once its check is accepted"})
         continue
     checks.append({
         "property_id": pid,
